@@ -221,6 +221,13 @@ def run(run):
                   ("MYSQL", "CREATE TABLE t (a INT, CONSTRAINT c1 FOREIGN KEY (a) REFERENCES o zq9 (id))"), ("MYSQL", "SET a = b zq9")):
         sreqs.append(sqlgen.parse_request("statements", d, t2))
         smeta.append((d, t2.replace(" zq9", "").replace(" 979797", ""), t2, "zq9" if "zq9" in t2 else "979797"))
+    # keyword-shaped strays: a noise word the grammar knows elsewhere, in front of something it does not belong to
+    for d, t2, key in (("MYSQL", "CREATE TABLE t (a INT) DEFAULT ENGINE=InnoDB", "DEFAULT"), ("MYSQL", "CREATE TABLE t (a INT) ENGINE=InnoDB DEFAULT COMMENT='x'", "DEFAULT"),
+                       ("MYSQL", "CREATE TABLE t (a INT) DEFAULT AUTO_INCREMENT=3", "DEFAULT"), ("MYSQL", "SELECT a FROM t AS AS x", "AS"),
+                       ("MYSQL", "INSERT INTO TABLE TABLE t VALUES (1)", "TABLE"), ("MYSQL", "SELECT a FROM t ORDER BY a ASC ASC", "ASC"),
+                       ("HIVE", "SELECT a FROM t LATERAL VIEW OUTER OUTER explode(x) lv AS e", "OUTER"), ("MYSQL", "SELECT DISTINCT DISTINCT a FROM t", "DISTINCT")):
+        sreqs.append(sqlgen.parse_request("statements", d, t2))
+        smeta.append((d, t2, t2, key))
     sim = core.run_impl(sreqs)
     smo = core.run_model(sreqs)
     dis += stmt.tie(run, "PARSE stray", sreqs, smo, sim, [m[2] for m in smeta])
